@@ -241,6 +241,10 @@ func generate(thorough bool, emit func(kase)) {
 		// a fragment followed by empty handshake records, by a non-handshake record, by 2000 one-byte fragments
 		head := tlsref.Record(22, 0x0301, msgGood[:10])
 		emit(kase{Family: "multi-record-hello-continuation", Desc: "empty fragments", Keys: true, First: append(slices.Clone(head), bytes.Repeat(tlsref.Record(22, 0x0301, nil), 3000)...)})
+		// nothing but empty handshake records, from the very first one (the 4-byte handshake header never completes, so a length
+		// limit alone never fires): 1 MB of them
+		emit(kase{Family: "multi-record-hello-continuation", Desc: "only empty handshake records, 200000 of them", Keys: true, First: bytes.Repeat(tlsref.Record(22, 0x0301, nil), 200000)})
+		emit(kase{Family: "multi-record-hello-continuation", Desc: "one byte, then 200000 empty handshake records", Keys: true, First: append(tlsref.Record(22, 0x0301, []byte{1}), bytes.Repeat(tlsref.Record(22, 0x0301, nil), 200000)...)})
 		emit(kase{Family: "multi-record-hello-continuation", Desc: "application data in the middle", Keys: true, First: append(slices.Clone(head), tlsref.Record(23, 0x0303, []byte{1})...)})
 		var drip []byte
 		for _, bt := range msgGood[10:] {
